@@ -363,8 +363,8 @@ func recordOne(p *recPlan, rng *rand.Rand) ([]trEvent, string) {
 		}
 		caches["cl"+cn] = cache
 	}
-	if !r.w.waitFor(tBound, func() bool { return r.settledLocked(nil, nil) }) {
-		hlib.Fatal("set-up does not settle: %s", r.dump())
+	if !r.w.waitFor(3*tBound, func() bool { return r.settledLocked(nil, nil) }) {
+		return nil, "set-up does not settle: " + r.dump()
 	}
 	r.w.mu.Lock()
 	for _, c := range r.conns {
